@@ -275,6 +275,7 @@ type Cache struct {
 	Ops      []CacheOp
 	PanicOn  string // "get" | "set": panic with PanicVal
 	PanicVal any
+	Net      *netsim.Sim // if set, operations are noted in the network's event log
 }
 
 // ErrCache is the injected cache fault.
@@ -285,6 +286,9 @@ func NewCache() *Cache { return &Cache{M: map[string]*crl.Bundle{}} }
 
 // Get implements crl.Cache.
 func (c *Cache) Get(ctx context.Context, url string) (*crl.Bundle, error) {
+	if c.Net != nil {
+		c.Net.Note("cache-get", url)
+	}
 	c.mu.Lock()
 	defer c.mu.Unlock()
 	if c.PanicOn == "get" {
@@ -308,6 +312,9 @@ func (c *Cache) Get(ctx context.Context, url string) (*crl.Bundle, error) {
 
 // Set implements crl.Cache.
 func (c *Cache) Set(ctx context.Context, url string, b *crl.Bundle) error {
+	if c.Net != nil {
+		c.Net.Note("cache-set", url)
+	}
 	c.mu.Lock()
 	defer c.mu.Unlock()
 	if c.PanicOn == "set" {
